@@ -129,6 +129,8 @@ def run(ctx):
                 rb = shared.nonnull_return_blocks(h) if h.retty.strip().endswith('*') else [x.bb for x in h.insts() if x.op == 'ret']
                 if rb and all(dominates(dominators(h), i.bb, x) for x in rb):
                     uncond = True
+                elif rb and shared.must_pass_store(h, [i2 for h2, i2, cv2 in wstores if h2 is h and cv2 == cv], rb):
+                    uncond = True
             if ok and not uncond:
                 r.fail(inst, func=es.name, sig=f'element_size {cval} but args.w keeps a caller value', loc=es.mod.src,
                        msg=f'the slot always reports {cval} bits while init overwrites args.w only conditionally: with a caller-supplied w the '
